@@ -370,6 +370,40 @@ def r2_error_discipline(ctx):
             else:
                 out.append(violated("C10.R2", key, t.where(),
                                     "the error of %s is not propagated: result is %s (not in the table of tolerated uses)" % (c, "/".join(sorted(kinds)))))
+    # Results yielded by iterators (directory scans): Option<Result<_, E>> from Iterator::next
+    item_rx = re.compile(r"^std::option::Option<std::result::Result<.*, (rustix::io::Errno|std::io::Error|error::Error|syscalls::Error)>>$")
+    for b in F.fn_bodies():
+        if is_bitflags_generated(b):
+            continue
+        k = 0
+        for t in b.calls("std::iter::Iterator::next"):
+            if not item_rx.search(t.rty or "") or t.dest is None or not t.dest.is_local:
+                continue
+            cfg = cfg_of(b)
+            d = t.dest.local
+            found = None
+            for x in sorted(cfg.reachable(t.target) if t.target is not None else []):
+                for i, s in enumerate(b.blocks[x].stmts):
+                    if s.kind == "assign" and s.rv["k"] == "use" and s.lhs.is_local:
+                        op = s.rv_operands()[0]
+                        if op.place is not None and op.place.local == d and any(isinstance(pr, dict) and pr.get("dc") == "Some" for pr in op.place.proj):
+                            found = (x, s.lhs.local)
+                            break
+                if found:
+                    break
+            if not found:
+                continue
+            n += 1
+            uses = _consume(ctx, b, found[1], found[0])
+            # the defining statement sits in block found[0]; also scan that block itself
+            kinds = {kk for (kk, _d) in uses}
+            key = "%s:iterator-item:%d" % (fn_key(b), k)
+            k += 1
+            good = {"propagated", "matched", "returned", "stored"}
+            if kinds & good and not (kinds - good - {"passed"}):
+                out.append(holds("C10.R2", key, t.where(), "error yielded by the iterator is %s" % "/".join(sorted(kinds))))
+            else:
+                out.append(violated("C10.R2", key, t.where(), "an error yielded by the iterator (%s) is %s" % ((t.rty or "")[:90], "/".join(sorted(kinds)))))
     if n < 100:
         out.append(violated("C10.R2", "site-count", "", "only %d fallible call sites classified" % n))
     return out
